@@ -33,8 +33,8 @@ MANIFEST = dict(
          "isinstance and item access on tree values as modelled in Glom/Model/C10Val.lean (validated on every "
          "generated value pair, not proved); user callables from a finite catalogue; evaluation inside "
          "Match(...) (mode-independent trees are also run bare); scope effects of Switch's chain_child "
-         "belong to C07. GATED (GATE_DEEPCOPY_M): deep copies / pickle round trips of specs with an `M` "
-         "operand - genuine glom defect, `copy.deepcopy(M > 3)` accepts every target.",
+         "belong to C07. Copies (copy / deepcopy / pickle) of specs "
+         "with an `M` operand are inside the correspondence since the repair 8acd988 (F43).",
     technique='Lean 4 refinement proof (code-shaped evaluator = 3-valued boolean denotation incl. call log) '
               '+ facts obligation by decide + differential correspondence',
     ref='DESIGN.md §3 C10, §6.4')
@@ -531,15 +531,9 @@ def run_prog(prog):
     return out
 
 
-# ---------------------------------------------------------------------------------------------
-# GATE (remove when the fix is committed): deep copies / pickle round trips of patterns with an
-# `M` operand are kept out of the correspondence.  Genuine defect of the pinned glom:
-#   glom(0, Match(copy.deepcopy(M > 3)))  returns 0  (the original raises MatchError)
-# `_MExpr.glomit` recognises its operands with `lhs is M` / `rhs is M`, `_MType` has no
-# __copy__ / __deepcopy__ / __reduce__, so the copy holds another `_MType` instance and
-# `<_MType> > 3` builds a truthy `_MExpr`.  Proposed fix: `def __reduce__(self): return 'M'` in _MType.
-GATE_DEEPCOPY_M = os.environ.get('VERIF_NO_GATES') != '1'      # VERIF_NO_GATES=1 bin/check C09|C10: run without the gate
-# ---------------------------------------------------------------------------------------------
+# (formerly gated: deep copies / pickle round trips of patterns with an `M` operand — glom defect
+# F43, `glom(0, Match(copy.deepcopy(M > 3)))` returned 0; repaired in /repo 8acd988: `_MType.__reduce__`)
+GATE_DEEPCOPY_M = False
 
 import copy as _copy
 
